@@ -1159,3 +1159,224 @@ func RuleID2(c *Ctx) {
 		sc.Undecided("impls", "-", "no implementation of InteractionID found")
 	}
 }
+
+// ---------------------------------------------------------------- UP1
+
+// RuleUP1: an update keeps the element. The collections of the catalog are changed in place
+// through `X.Update(key, func(v T) T { ...; return v })`: the callback hands back the very
+// element it was given (or a `*v` copy of it), so everything the element has accumulated -
+// the interaction groups of a tag, the responses of an interaction - survives a later
+// change of one field. A callback that returns a freshly constructed element replaces the
+// entry and silently drops the rest.
+func RuleUP1(c *Ctx) {
+	sc := c.Run.Begin("UP1", "every callback given to an Update method of a catalog collection returns the element it received (or a copy made from it), never a freshly constructed one", 1)
+	defer sc.End()
+	n := 0
+	perFn := map[*ast.FuncDecl]int{}
+	c.eachCall(func(cs callSite) {
+		info := cs.Pk.TypesInfo
+		f := Callee(info, cs.Call)
+		if f == nil || f.Name() != "Update" || c.P.Decl(f) == nil || len(cs.Call.Args) != 2 {
+			return
+		}
+		sig := f.Type().(*types.Signature)
+		if sig.Recv() == nil || sig.Params().Len() != 2 {
+			return
+		}
+		cbT, ok := sig.Params().At(1).Type().Underlying().(*types.Signature)
+		if !ok || cbT.Params().Len() != 1 || cbT.Results().Len() != 1 || !types.Identical(cbT.Params().At(0).Type(), cbT.Results().At(0).Type()) {
+			return
+		}
+		var body *ast.BlockStmt
+		var ftype *ast.FuncType
+		binfo := info
+		switch a := ast.Unparen(cs.Call.Args[1]).(type) {
+		case *ast.FuncLit:
+			body, ftype = a.Body, a.Type
+		default:
+			var g *types.Func
+			switch x := a.(type) {
+			case *ast.Ident:
+				g, _ = info.ObjectOf(x).(*types.Func)
+			case *ast.SelectorExpr:
+				g, _ = info.ObjectOf(x.Sel).(*types.Func)
+			}
+			if gd := c.P.Decl(g); g != nil && gd != nil {
+				body, ftype, binfo = gd.Body, gd.Type, c.P.PkgOfDecl(gd).TypesInfo
+			}
+		}
+		n++
+		perFn[cs.Decl]++
+		key := fmt.Sprintf("%s#%d", c.P.DeclName(cs.Decl), perFn[cs.Decl])
+		pos := c.P.Pos(cs.Call.Pos())
+		if body == nil || len(ftype.Params.List) != 1 || len(ftype.Params.List[0].Names) != 1 {
+			sc.Undecided(key, pos, "the Update callback is not a function literal or a declared function with a named parameter")
+			return
+		}
+		param := binfo.ObjectOf(ftype.Params.List[0].Names[0])
+		cf := c.CFG(cs.Pk, body)
+		fromParam := func(e ast.Expr) bool {
+			e = ast.Unparen(cf.Resolve(e))
+			if ta, ok := e.(*ast.TypeAssertExpr); ok {
+				e = ast.Unparen(cf.Resolve(ta.X))
+			}
+			if id, ok := e.(*ast.Ident); ok && binfo.ObjectOf(id) == param {
+				return true
+			}
+			// &cp with cp := *v
+			if u, ok := e.(*ast.UnaryExpr); ok && u.Op == token.AND {
+				if id, ok := ast.Unparen(u.X).(*ast.Ident); ok {
+					if def := cf.DefOf(binfo.ObjectOf(id)); def != nil {
+						if st, ok := ast.Unparen(def).(*ast.StarExpr); ok {
+							if pid, ok := ast.Unparen(st.X).(*ast.Ident); ok && binfo.ObjectOf(pid) == param {
+								return true
+							}
+						}
+					}
+				}
+			}
+			return false
+		}
+		bad := ""
+		rets := 0
+		inspectNoLit(body, func(nd ast.Node) bool {
+			ret, ok := nd.(*ast.ReturnStmt)
+			if !ok || len(ret.Results) != 1 {
+				return true
+			}
+			rets++
+			if !fromParam(ret.Results[0]) {
+				bad = types.ExprString(ret.Results[0])
+			}
+			return true
+		})
+		if bad == "" && rets > 0 {
+			sc.Holds(key, pos, fmt.Sprintf("the callback returns its own argument (%d return(s))", rets))
+		} else {
+			sc.Violation(key, pos, "the Update callback returns "+bad+", not the element it was given: the entry is replaced and everything it had collected (the interactions listed under a tag, the parts of an interaction) is dropped")
+		}
+	})
+	if n == 0 {
+		sc.Undecided("sites", "-", "no Update call with a callback found")
+	}
+}
+
+// ---------------------------------------------------------------- MB1
+
+// RuleMB1: the mandatory parts of an interaction are demanded unconditionally. Every request
+// and every response of the catalog has a body (C09); the model allows the slot to stay nil
+// while the tree is built, and the validation stage is what refuses it. For each mandatory
+// slot (table below) some rejection in package core has a condition that `holder != nil &&
+// holder.Slot == nil` implies: a conjunction of the slot's nil test with nil tests of the
+// holder chain only (and comma-ok results of type assertions around it). A rejection that
+// also asks for something else ("and no headers either") lets an interaction without the
+// part through whenever that something else is present.
+func RuleMB1(c *Ctx) {
+	sc := c.Run.Begin("MB1", "for each mandatory part of an interaction (request body, response body) package core has a rejection whose condition is the part's nil test together with nil tests of its holder chain only", 2)
+	defer sc.End()
+	pk := c.P.Pkg("core")
+	if pk == nil {
+		sc.Undecided("anchors", "-", "unresolved anchor: package core")
+		return
+	}
+	// the mandatory slots: frozen from the statement of C09 ("every request and response has
+	// a body") and from the two rejections present on the confirmed tree
+	slots := []struct{ typ, field string }{
+		{"HTTPRequest", "HTTPRequestBody"},
+		{"HTTPResponse", "Body"},
+	}
+	info := pk.TypesInfo
+	for _, sl := range slots {
+		fld := c.Field("catalog", sl.typ, sl.field)
+		key := sl.typ + "." + sl.field
+		if fld == nil {
+			sc.Undecided(key, "-", "unresolved anchor: catalog."+key)
+			continue
+		}
+		good, near := "", ""
+		nearWhy := ""
+		c.P.Funcs(func(p *pkgT, fd *ast.FuncDecl) {
+			if p != pk {
+				return
+			}
+			ast.Inspect(fd.Body, func(n ast.Node) bool {
+				ifs, ok := n.(*ast.IfStmt)
+				if !ok || !endsWithErrorReturn(info, ifs.Body) {
+					return true
+				}
+				body := innermostBody(fd, ifs)
+				cf := c.CFG(pk, body.body)
+				// atoms of the condition and of what dominates the if
+				facts := cf.Decompose(ifs.Cond, true)
+				var slotExpr ast.Expr
+				for _, fa := range facts {
+					be, ok := ast.Unparen(fa.Expr).(*ast.BinaryExpr)
+					if !ok || !((be.Op == token.EQL && fa.Truth) || (be.Op == token.NEQ && !fa.Truth)) {
+						continue
+					}
+					x := be.X
+					if isNilIdentExpr(info, x) {
+						x = be.Y
+					} else if !isNilIdentExpr(info, be.Y) {
+						continue
+					}
+					if sel, ok := ast.Unparen(x).(*ast.SelectorExpr); ok && info.ObjectOf(sel.Sel) == types.Object(fld) {
+						slotExpr = x
+					}
+				}
+				if slotExpr == nil {
+					return true
+				}
+				extra := ""
+				for _, fa := range append(facts, cf.FactsAt(ifs)...) {
+					if fa.Derived {
+						continue
+					}
+					e := ast.Unparen(fa.Expr)
+					switch x := e.(type) {
+					case *ast.BinaryExpr:
+						if x.Op == token.LAND || x.Op == token.LOR {
+							if x.Op == token.LAND && fa.Truth || x.Op == token.LOR && !fa.Truth {
+								continue // decomposed
+							}
+							extra = types.ExprString(e)
+							continue
+						}
+						if (x.Op == token.EQL || x.Op == token.NEQ) && (isNilIdentExpr(info, x.X) || isNilIdentExpr(info, x.Y)) {
+							if pa1NilOnPrefix(info, cf, fa, slotExpr) {
+								continue
+							}
+						}
+						extra = types.ExprString(e)
+					case *ast.Ident:
+						if def := cf.Resolve(x); def != ast.Expr(x) {
+							continue // a named condition: its parts are in the list
+						}
+						if _, _, isTuple := cf.TupleDefOf(info.ObjectOf(x)); isTuple {
+							continue // comma-ok of a type assertion
+						}
+						extra = types.ExprString(e)
+					case *ast.UnaryExpr:
+						continue
+					default:
+						extra = types.ExprString(e)
+					}
+				}
+				if extra == "" {
+					good = c.P.Pos(ifs.Pos())
+				} else if near == "" {
+					near, nearWhy = c.P.Pos(ifs.Pos()), extra
+				}
+				return true
+			})
+		})
+		switch {
+		case good != "":
+			sc.Holds(key, good, "refused when absent, whatever else the holder has")
+		case near != "":
+			sc.Violation(key, near, "the only rejection of a missing "+key+" also depends on `"+nearWhy+"`: an interaction without this part is accepted whenever that other condition fails, and is serialised without it")
+		default:
+			sc.Violation(key, "-", "no rejection of a missing "+key+" found in package core: interactions without this mandatory part are accepted")
+		}
+	}
+}
